@@ -20,6 +20,8 @@ import (
 	"os"
 	"sort"
 	"strings"
+	"sync"
+	"time"
 )
 
 type propImpl struct {
@@ -160,13 +162,39 @@ func main() {
 		r := &runCtx{w: w, stats: map[string]int{}}
 		sc := bufio.NewScanner(os.Stdin)
 		sc.Buffer(make([]byte, 1<<20), 1<<28)
+		// a case that never returns (a lock taken twice, a send nobody receives) is a finding about
+		// that case, not a reason to lose the run: the watchdog ends the process, and the engine
+		// blames the unfinished case and carries on after it
+		var caseMu sync.Mutex
+		caseID, caseStart := "", time.Time{}
+		deadline := 120 * time.Second
+		if d, err := time.ParseDuration(os.Getenv("VERIF_CASE_DEADLINE")); err == nil && d > 0 {
+			deadline = d
+		}
+		go func() {
+			for range time.Tick(time.Second) {
+				caseMu.Lock()
+				id, st := caseID, caseStart
+				caseMu.Unlock()
+				if id != "" && time.Since(st) > deadline {
+					fmt.Fprintf(os.Stderr, "case %s did not return within %v: the code under test is blocked (deadlock or lost wake-up)\n", id, deadline)
+					os.Exit(3)
+				}
+			}
+		}()
 		for sc.Scan() {
 			line := sc.Text()
 			if line == "" || line[0] == '#' {
 				continue
 			}
 			f := strings.Fields(line)
+			caseMu.Lock()
+			caseID, caseStart = f[0], time.Now()
+			caseMu.Unlock()
 			runOne(p, r, f[0], f[1:])
+			caseMu.Lock()
+			caseID = ""
+			caseMu.Unlock()
 			// one case at a time reaches the engine, so that a crash of the code under test in
 			// another goroutine (which recover cannot catch) loses only the case that caused it
 			fmt.Fprintf(w, "%s DONE\n", f[0])
